@@ -11,6 +11,7 @@ pub mod c10;
 pub mod c11;
 pub mod c12;
 pub mod c13;
+pub mod c14;
 pub mod c15;
 pub mod c16;
 pub mod c17;
@@ -34,6 +35,7 @@ pub fn lookup(id: &str) -> Option<Arc<dyn Prop>> {
         "C11" => Arc::new(c11::C11),
         "C12" => Arc::new(c12::C12),
         "C13" => Arc::new(c13::C13),
+        "C14" => Arc::new(c14::C14),
         "C15" => Arc::new(c15::C15),
         "C16" => Arc::new(c16::C16),
         "C17" => Arc::new(c17::C17),
